@@ -3,6 +3,7 @@ The generalised fragment check (C05 / C10 composites): `PlanCheck.checkTy` exten
   * skipped fields (`FieldPlan.skip`: goverter:ignore / ignoreMissing / ignoreUnexported — the field is not assigned),
   * struct nodes of update methods (`structc … isUpdate` with either flag),
   * zero-value guards (`ZeroCheck.check`: update:ignoreZeroValueField),
+  * fields fed by a source METHOD (`FieldPlan.viaMethod`, no error result, identity conversion of the uninterpreted result),
   * mapped fields with arbitrary source paths (goverter:map: dotted paths through structs and nil-guarded pointers, `.`),
   * update methods at the top level (`Body.update srcIsPtr c`),
   * default constructors at the top level of a conversion method (`withCtor` / `ctorUpdate` around a constructor call).
@@ -38,6 +39,38 @@ def walkTy (env : TEnv) : Ty → List S → Option (Ty × List Bool × Bool)
        | some (leaf, ds, g) => some (leaf, (derefTy env cur).2 :: ds, (derefTy env cur).2 || g)
        | none => none)
     | none => none
+
+/-- the result type of method `n` of the named type `t`, if it has exactly one result (no error result) -/
+def methodResTy (env : TEnv) (t : Ty) (n : S) : Option Ty :=
+  match t with
+  | .named id =>
+    (match env.find id with
+     | some d =>
+       (match d.methods.find? (fun (m : MethodDecl) => m.name == n) with
+        | some md => (match md.sig.results with | [r] => some r | _ => none)
+        | none => none)
+     | none => none)
+  | _ => none
+
+def isCtxArg : CallArg → Bool
+  | .ctx _ => true
+  | _ => false
+
+/-- the identity conversions: the only ones that make sense on an uninterpreted value -/
+def isIdConv : Conv → Bool
+  | .ident => true
+  | .cast .ident => true
+  | _ => false
+
+/-- the conversions accepted for the result of a source method (an uninterpreted value, possibly behind the temporary
+pointer of a nil guard): an identity conversion, directly or below one pointer step -/
+def opaqueShape : Conv → Bool
+  | .ident => true
+  | .cast .ident => true
+  | .ptrPtr _ c => isIdConv c
+  | .srcPtr _ c => isIdConv c
+  | .tgtPtr _ c => isIdConv c
+  | _ => false
 
 /-- the type of the value handed to the field conversion: the leaf itself, or — behind a nil guard, for a non-pointer leaf —
 the temporary pointer to it -/
@@ -105,6 +138,18 @@ mutual
        | some (leaf, ds, g) =>
          derefs == ds && guarded == g && leafIsPtr == (isPtr p.conv.env leaf).isSome &&
          checkTyU p cv (fieldArgTy guarded leafIsPtr leaf) tty
+       | none => false)
+    | .viaMethod target path derefs guarded (.call (.structMethod n) args retErr _) resIsPtr cv _, s, tf, tty =>
+      target == tf.name && !retErr && args.all isCtxArg &&
+      (match walkTy p.conv.env s path with
+       | some (t0, ds, g) =>
+         derefs == ds ++ [(derefTy p.conv.env t0).2] && guarded == (g || (derefTy p.conv.env t0).2) &&
+         (fieldTyOf p.conv.env (derefTy p.conv.env t0).1 n).isNone &&
+         (match methodResTy p.conv.env (derefTy p.conv.env t0).1 n with
+          | some rty =>
+            resIsPtr == (isPtr p.conv.env rty).isSome && opaqueShape cv &&
+            checkTyU p cv (fieldArgTy guarded resIsPtr rty) tty
+          | none => false)
        | none => false)
     | _, _, _, _ => false
 end
